@@ -254,6 +254,25 @@ func runFromPoint(q ref.Pt, z *big.Int) string {
 	if lib.Raw(p) != raw {
 		return "a failed decode modified its receiver (the point would now be turned into a public key)"
 	}
+	// ... and history of SUCCESSFUL decodes into the same object: the identity encoding decoded into a point that held
+	// a value is the identity (refused as a key); another point decoded into it makes it that point
+	if !q.Inf {
+		re := lib.MkPTRep(q, z)
+		if _, e := re.SetBytes([]byte{0}); e != nil {
+			return "SetBytes(00) failed: " + e.Error()
+		}
+		if k0, e := secec.NewPublicKeyFromPoint(re); e == nil || k0 != nil {
+			return "a point object that last decoded the identity encoding 00 (after holding another point) was accepted as a public key"
+		}
+		if _, e := re.SetBytes(q.Neg().Compressed()); e != nil {
+			return "SetBytes(valid) failed: " + e.Error()
+		}
+		if k1, e := secec.NewPublicKeyFromPoint(re); e != nil {
+			return "rejected a valid re-decoded point: " + e.Error()
+		} else if m := checkPub(k1, q.Neg()); m != "" {
+			return "key from a re-decoded point object: " + m
+		}
+	}
 	k, err := secec.NewPublicKeyFromPoint(p)
 	if q.Inf {
 		if err == nil || k != nil {
